@@ -122,6 +122,14 @@ func main() {
 				c = w.Contracts[fmt.Sprintf("emitted.%s_closure%d", strings.ReplaceAll(strings.TrimPrefix(fkey, "emitted."), ".", "_"), closure)]
 			}
 			r := w.VerifyFunc(fi, c, VerifyOpts{Safety: *safety, Bounds: *bounds, Events: events, Closure: closure, Timeout: 10 * time.Second})
+			if os.Getenv("GOVC_DUMP_ALL") != "" && *dump != "" {
+				for _, o := range r.Obls {
+					if strings.Contains(o.Name, os.Getenv("GOVC_DUMP_MATCH")) {
+						os.WriteFile(*dump, []byte(o.Script), 0o644)
+						break
+					}
+				}
+			}
 			if !printUnit(r, *verbose) {
 				allOK = false
 				if *dump != "" {
